@@ -165,6 +165,7 @@ def fnRolesTable : List (Nat × List Role) := [
   (key! "transport.websocketPeer.Close", [.A1, .H, .Cli]),
   (key! "transport.websocketPeer.recvHandler", [.Rd]),
   (key! "transport.websocketPeer.sendHandler", [.W]),
+  (key! "transport.websocketPeer.drainQueued", [.W]),
   (key! "transport.websocketPeer.sendHandlerKeepAlive", [.W]),
   (key! "wamp.RecvTimeout", [.A1]),
   (key! "wamp.Session.EndRecv", [.Rtr, .Ext2, .H, .R, .HM, .D])
